@@ -86,6 +86,7 @@ Record cloc1 (g : cshared) (t : nat) (l : cth) : Prop := {
   l1_hw : a_hw (th_a l) = true <-> c_wr g = WHeld t;
   l1_msg : cmsg_reset (th_msg l) = true -> a_mayreset (th_a l) = true;
   l1_kp : forall b, a_kp (th_a l) = Some b -> c_persist g = b;
+  l1_np : c_persist g = false \/ cpok_l (th_pc l) = true;
   l1_ops : forallb cop_ok (th_ops l) = true;
   l1_app : (1 <= t)%nat -> a_needr (th_a l) = true /\ forall o, In o (th_ops l) -> exists m, o = OQueue m
 }.
@@ -115,6 +116,7 @@ Proof.
   - rewrite (f1_readers _ _ _ F u Hne). auto.
   - rewrite (f1_wr _ _ _ F u Hne). auto.
   - intros b Hb. rewrite (f1_persist _ _ _ F). auto.
+  - rewrite (f1_persist _ _ _ F). auto.
 Qed.
 
 Lemma cframe1_refl t g : cframe1 t g g.
@@ -185,20 +187,22 @@ Proof.
 Qed.
 
 Lemma cloc1_atom g g' t l l' st a' :
-  cloc1 g t l -> caprim (th_a l) st = Some a' -> carun_l (th_pc l') a' = Some (cfin (th_a l)) ->
+  cloc1 g t l -> th_pc l = st :: th_pc l' -> caprim (th_a l) st = Some a' -> carun_l (th_pc l') a' = Some (cfin (th_a l)) ->
   th_a l' = a' -> th_ops l' = th_ops l -> (th_msg l' = th_msg l \/ cmsg_reset (th_msg l') = false) ->
   c_persist g' = c_persist g ->
   (a_hs a' = true <-> c_owner g' = Some t) -> (a_hr a' = true <-> In t (c_readers g')) ->
   (a_hw a' = true <-> c_wr g' = WHeld t) ->
   cloc1 g' t l'.
 Proof.
-  intros L Hap Hrun Ha Hops Hmsg Hper Hhs Hhr Hhw. destruct L.
+  intros L Hpcs Hap Hrun Ha Hops Hmsg Hper Hhs Hhr Hhw. destruct L.
   destruct (caprim_static _ _ _ Hap) as [Hs1 Hs2].
   constructor; rewrite ?Ha; auto.
   - rewrite (cfin_caprim _ _ _ Hap). exact Hrun.
   - eapply caprim_wf; eauto.
   - rewrite Hs1. destruct Hmsg as [-> | ->]; [auto|discriminate].
   - intros b Hb. rewrite Hper. destruct (caprim_kp _ _ _ Hap) as [E|E]; rewrite E in Hb; [discriminate|auto].
+  - rewrite Hper. destruct l1_np0 as [E|E]; [left; exact E|right]. rewrite Hpcs in E. cbn [cpok_l] in E.
+    apply andb_true_iff in E. apply E.
   - rewrite Hops. auto.
   - rewrite Hops, Hs2. auto.
 Qed.
@@ -223,15 +227,32 @@ Qed.
 Lemma clearn_bits a c b :
   a_hs (clearn a c b) = a_hs a /\ a_hr (clearn a c b) = a_hr a /\ a_hw (clearn a c b) = a_hw a /\
   a_ph (clearn a c b) = a_ph a /\ a_q (clearn a c b) = a_q a.
-Proof. destruct c; cbn; auto. destruct c; cbn; auto. Qed.
+Proof. cbn. auto. Qed.
 
 Lemma clearn_kp g l ch a c b0 :
   (forall b, a_kp a = Some b -> c_persist g = b) ->
   a_kp (clearn a c (ceval_c g l ch c)) = Some b0 -> c_persist g = b0.
+Proof. intros H. exact (H b0). Qed.
+
+(* ---------- the persistence test ---------- *)
+Lemma cpok_if c t e :
+  cpok_s (SIf c t e) = match c with CNoPersist => cpok_l e | CNot CNoPersist => cpok_l t | _ => cpok_l t && cpok_l e end.
+Proof. reflexivity. Qed.
+Lemma cpok_iter b : cpok_s (SIter b) = cpok_l b.
+Proof. reflexivity. Qed.
+Lemma cpok_app p q : cpok_l (p ++ q) = cpok_l p && cpok_l q.
+Proof. induction p as [|x p IH]; cbn [app cpok_l]; [reflexivity|]. rewrite IH, andb_assoc. reflexivity. Qed.
+
+Lemma cpok_if_step g l ch c t e rest :
+  c_persist g = false \/ cpok_l (SIf c t e :: rest) = true ->
+  c_persist g = false \/ cpok_l ((if ceval_c g l ch c then t else e) ++ rest) = true.
 Proof.
-  intros H. destruct c; cbn; auto.
-  - intros E. inversion E. now rewrite negb_involutive.
-  - destruct c; cbn; auto. intros E. inversion E. now rewrite negb_involutive.
+  intros [H|H]; [left; exact H|]. cbn [cpok_l] in H. apply andb_true_iff in H. destruct H as [H1 H2].
+  rewrite cpok_if in H1. rewrite cpok_app, H2, andb_true_r.
+  destruct c; try (apply andb_true_iff in H1; destruct H1 as [Ht He]; right; destruct (ceval_c g l ch _); assumption).
+  - cbn. destruct (c_persist g); cbn; auto.
+  - destruct c; try (apply andb_true_iff in H1; destruct H1 as [Ht He]; right; destruct (ceval_c g l ch _); assumption).
+    cbn. destruct (c_persist g); cbn; auto.
 Qed.
 
 Lemma csafe_if g l ch c tb eb rest a f :
@@ -369,6 +390,7 @@ Proof.
       split; [|split].
       * destruct G; constructor; rewrite ?Hr, ?Hw; auto.
       * eapply cloc1_atom; eauto.
+        -- rewrite Hpc'. exact Hpc.
         -- rewrite Hpc'. exact Hrun.
         -- congruence.
         -- rewrite B1, Ho. apply (l1_hs _ _ _ L).
@@ -379,17 +401,17 @@ Proof.
     destruct st; try discriminate Hat; cbn in Hex.
     + inversion Hex; subst g' l'; clear Hex.
       split; [exact G|split; [|apply cframe1_refl]].
-      destruct (clearn_bits (th_a l) c (ceval_c g l ch c)) as (B1 & B2 & B3 & _).
-      destruct (clearn_static (th_a l) c (ceval_c g l ch c)) as (S1 & S2).
-      constructor; cbn; rewrite ?B1, ?B2, ?B3, ?S1, ?S2; try apply L.
-      * unfold cfin. rewrite S1, S2. apply csafe_if; [apply L|exact Hsafe].
-      * rewrite clearn_wf. apply L.
-      * intros b. apply clearn_kp. apply L.
+      constructor; cbn; try apply L.
+      * apply (csafe_if g l ch c t0 e rest (th_a l) _ (l1_msg _ _ _ L) Hsafe).
+      * apply cpok_if_step. rewrite <- Hpc. apply L.
     + destruct (csafe_iter _ _ _ _ Hsafe) as [Hs1 Hs2].
       destruct (th_iter l) as [[|[n [id adm]] its]|] eqn:Eit; inversion Hex; subst g' l'; clear Hex;
         (split; [exact G|split; [|apply cframe1_refl]]); constructor; cbn; try apply L; auto.
       all: try (destruct adm; discriminate).
       all: try (rewrite <- Hpc; apply L).
+      all: destruct (l1_np _ _ _ L) as [E|E]; [left; exact E|right]; rewrite Hpc in E; cbn [cpok_l] in E;
+        apply andb_true_iff in E; destruct E as [E1 E2]; rewrite ?cpok_app; cbn [cpok_l]; rewrite ?E1, ?E2; auto.
+      all: try (rewrite andb_true_r; exact E1).
 Qed.
 
 (* ---------- starting an operation, whole steps, reachability ---------- *)
@@ -402,12 +424,16 @@ Qed.
 Lemma check_shape_prog sh o :
   check_shape sh = true -> cop_ok o = true ->
   let '(pc, m, (mr, nr)) := cprog_of sh o in
-  carun_l pc (cabs_idle mr nr) = Some (cabs_idle mr nr) /\ (cmsg_reset m = true -> mr = true).
+  carun_l pc (cabs_idle mr nr) = Some (cabs_idle mr nr) /\ (cmsg_reset m = true -> mr = true) /\ cpok_l pc = true.
 Proof.
-  unfold check_shape. rewrite !andb_true_iff. intros [[[[[[[H1 H2] H3] H4] H5] H6] _] _] Hok.
-  destruct o; cbn in *; try discriminate Hok; (split; [auto using centry_ok_run|]); try discriminate; auto.
-  - apply negb_true_iff in Hok. congruence.
-  - apply negb_true_iff in Hok. congruence.
+  unfold check_shape. rewrite !andb_true_iff.
+  intros [[[[[[[[H1 H2] H3] H4] H5] H6] _] _] [[[[[P1 P2] P3] P4] P5] P6]] Hok.
+  destruct o; cbn in *; try discriminate Hok;
+    try (split; [auto using centry_ok_run|split; [|auto]]; try discriminate; auto; apply negb_true_iff in Hok; congruence).
+  (* OLogon *)
+  unfold clogon_ok. destruct (centry_ok false false (sh_logon sh) && cnosetout_l (sh_logon sh) && cpok_l (sh_logon sh)) eqn:E.
+  - rewrite !andb_true_iff in E. destruct E as [[E1 E2] E3]. split; [apply centry_ok_run; exact E1|split; [discriminate|exact E3]].
+  - split; [reflexivity|split; [discriminate|reflexivity]].
 Qed.
 
 Lemma cload_loc1 sh g t l o os :
@@ -417,7 +443,7 @@ Proof.
   pose proof (l1_safe _ _ _ L) as Hs. rewrite Hpc in Hs. cbn in Hs. inversion Hs as [Hfin]; clear Hs.
   pose proof (l1_ops _ _ _ L) as Hok. rewrite Hops in Hok. cbn in Hok. apply andb_true_iff in Hok. destruct Hok as [Hok Hoks].
   pose proof (check_shape_prog sh o Hsh Hok) as Hp.
-  unfold cload. destruct (cprog_of sh o) as [[pc m] [mr nr]] eqn:Epr. destruct Hp as [Hrun Hreset].
+  unfold cload. destruct (cprog_of sh o) as [[pc m] [mr nr]] eqn:Epr. destruct Hp as (Hrun & Hreset & Hpok).
   assert (Hb : a_hs (th_a l) = false /\ a_hr (th_a l) = false /\ a_hw (th_a l) = false) by (rewrite Hfin; cbn; auto).
   destruct Hb as (B1 & B2 & B3).
   destruct (match o with OResend b e rejs => (b, e, rejs) | OSetOut _ room => (Z.of_nat room, 0%Z, []) | _ => (0%Z, 0%Z, []) end) as [[b e] rejs].
